@@ -93,3 +93,48 @@ func ZZC07Types() {
 }
 
 func init() { ZZHarnesses["ZZC07Types"] = ZZC07Types }
+
+// ZZC17AllOfChain: an error raised while a type's allOf rule is processed is reported at the same
+// place - file and offset - whether that type is the root's type or is reached through another
+// type that inherits from it.
+func ZZC17AllOfChain() {
+	pad := ""
+	for i, n := 0, v.Choose(0, 3); i < n; i++ {
+		pad += " "
+	}
+	kind := v.Choose(0, 2)
+	cBody := []string{"", `5`, `[1]`}[kind] // missing, not an object, not an object
+	bText := pad + "{ // {allOf: \"@c\"}\n  \"x\": 1\n}"
+	mk := func(root string) (string, int, int, bool) {
+		s := jschema.New("root", root)
+		_ = s.AddType("@a", jschema.New("@a", "{ // {allOf: \"@b\"}\n  \"own\": 2\n}"))
+		_ = s.AddType("@b", jschema.New("@b", bText))
+		if cBody != "" {
+			_ = s.AddType("@c", jschema.New("@c", cBody))
+		}
+		err := s.Check()
+		var de errors.DocumentError
+		if err == nil || !stdErrors.As(err, &de) {
+			return "", -1, -1, err == nil
+		}
+		return de.Filename(), int(de.Position()), de.ErrCode(), false
+	}
+	// the root refers to the type, or inherits from it itself (then the allOf rules are processed nested)
+	direct, inherited := "@b", "@a"
+	if v.Choose(0, 1) == 1 {
+		direct, inherited = "{ // {allOf: \"@b\"}\n}", "{ // {allOf: \"@a\"}\n}"
+	}
+	f1, p1, c1, ok1 := mk(direct)
+	f2, p2, c2, ok2 := mk(inherited)
+	v.Observe("b", bText)
+	v.Observe("direct", f1+":"+itoa(p1)+":"+itoa(c1))
+	v.Observe("inherited", f2+":"+itoa(p2)+":"+itoa(c2))
+	v.Assert(!ok1 && !ok2, "C17/allof-error-not-raised")
+	v.Assert(c1 == c2, "C17/allof-error-code-depends-on-the-referring-type")
+	v.Assert(f1 == f2 && p1 == p2, "C17/allof-error-position-depends-on-the-referring-type")
+	// it belongs to the object that carries the faulty rule, in @b's own text
+	v.Assert(f1 == "@b" && p1 == len(pad), "C17/allof-error-position")
+	v.Reach("C17/allof-chain")
+}
+
+func init() { ZZHarnesses["ZZC17AllOfChain"] = ZZC17AllOfChain }
